@@ -52,6 +52,7 @@ type VC struct {
 	noAssume func(name, kind string) bool // obligations that are not claimed: nothing is assumed from them afterwards
 	closedAllocs []*State // states just before own allocations (option heap-closedness)
 	noRebase  bool
+	binderRange bool // `option binder-range`: forallIn binders carry the interval of their guard
 	nameWraps bool
 	binderTyping bool
 	binderFacts [][]string
